@@ -5,7 +5,8 @@ import vkit
 
 ACTS = {"connect", "loop", "enable", "disable", "setcb", "seterr", "free"}
 FAILS = ["again", "intr", "abort", "emfile", "enfile", "nomem"]
-CBACTS = {"disable", "free", "setnull", "setfn2", "disen"}
+FREE2 = {"disfree", "nullfree", "enfree", "disenfree"}     # two calls from one callback, the second being free
+CBACTS = {"disable", "free", "setnull", "setfn2", "disen"} | FREE2
 INVS = ["TypeOK", "DeliveredExactlyOnceOrClosed", "NoLeak", "QueueOK", "ArmedOK", "ErrorCbOnNonRetriable",
         "SocketClosedIffCloseOnFree"]
 PROPS = ["NothingWhileDisabled"]
@@ -67,7 +68,7 @@ def generate(chk, name, c, *, simulate=None, depth=None, seed=None, workers=None
             consume(list(buf))
             del buf[:]
     res = vkit.tlc("Listener", cfg, simulate=simulate, depth=depth, seed=seed, print_sink=sink,
-                   workers=workers or (8 if simulate else vkit.NCPU), timeout=3000)
+                   workers=workers or 4, timeout=3000)
     if buf:
         consume(list(buf))
     chk.add_tlc(name, res)
@@ -98,7 +99,7 @@ def histogram(hists, d):
 
 def replay_corpus(chk, exe, hists, n, label, limit=5):
     scen = [{"cfg": {"n": n}, "h": strip_obs(h)} for h in hists]
-    outs = vkit.run_driver(exe, scen, timeout=900)
+    outs = vkit.run_driver(exe, scen, timeout=900, shards=8)
     fails = vkit.compare_histories(hists, outs)
     if fails:
         # a mismatch must repeat to count (loopback delivery of FIN/RST is the only asynchronous element)
@@ -127,9 +128,9 @@ def run(tier, seed):
 
     # 1. the property on the complete reachable state graph of the bounded model (hist hidden by the VIEW)
     full_as = ascripts(2, FAILS, oks=("ok", "nosys", "zlen")) | {("zlen",), ("nosys",), ("zlen", "zlen")}
-    mc = consts(4, 0, range(0, 8), ascr=full_as, cbpos=3, erracts=("none", "disable", "free"))
+    mc = consts(3 if q else 4, 0, range(0, 8), ascr=full_as, cbpos=3, erracts=("none", "disable", "free", "disfree"))
     cfg = vkit.write_cfg("C44_mc", mc, invariants=INVS, properties=PROPS, view="StateView")
-    res = vkit.tlc("Listener", cfg, want_prints=False, coverage=True, workers=8)
+    res = vkit.tlc("Listener", cfg, want_prints=False, coverage=True, workers=4)
     chk.add_tlc("C44_mc", res)
     chk.check_coverage(res, ["New", "Connect", "Enable", "Disable", "SetCb", "SetErr", "Free", "Loop"], "C44_mc")
     chk.cov["exhaustive"] = True
@@ -140,19 +141,26 @@ def run(tier, seed):
         # every history of the core API (no accept faults), callbacks doing every re-entrant call
         dict(name="C44_exh_core", n=3,
              consts=consts(3, 5 if q else 6, [0, 1, 2, 3, 6, 7], acts=ACTS - {"seterr"})),
+        # two calls from one callback invocation ending in free (accept callback and error callback), every creation
+        # variant that matters for it: the socket must be closed iff CLOSE_ON_FREE and nothing may leak
+        dict(name="C44_exh_free2", n=2,
+             consts=consts(2, 5, [2, 3, 6, 7, 3 + 32], acts={"connect", "loop", "seterr", "enable"}, ascr=((), ("emfile",), ("ok", "nomem")),
+                           cbacts=FREE2 | {"free"}, cbpos=2, erracts=("none", "free", "disfree"))),
         # accept faults: every script position x every failure, error callback doing nothing / disable / free
         dict(name="C44_exh_faults", n=3,
-             consts=consts(3, 5, [2, 3], acts={"connect", "loop", "seterr", "free"},
-                           ascr=ascripts(1, ["again", "abort", "emfile", "nomem"] if q else FAILS) | fault_scripts,
+             consts=consts(3, 5, [3] if q else [2, 3], acts={"connect", "loop", "seterr", "free"},
+                           ascr=(ascripts(1, ["again", "emfile"]) | {("zlen",), ("nosys",), ("zlen", "emfile")}) if q
+                           else (ascripts(1, FAILS) | fault_scripts),
                            cbacts={"free", "disable"}, cbpos=1, erracts=("none", "disable", "free"))),
         # accepted-socket flags and the locking variant
         dict(name="C44_exh_flags", n=2,
-             consts=consts(2, 5 if q else 6, [2 + 8, 3 + 16, 2 + 8 + 16 + 32, 3 + 32, 1 + 32, 7 + 32 + 8],
+             consts=consts(2, 4 if q else 6, [2 + 8 + 16 + 32, 3 + 16, 7 + 32 + 8] if q else
+                           [2 + 8, 3 + 16, 2 + 8 + 16 + 32, 3 + 32, 1 + 32, 7 + 32 + 8],
                            acts=ACTS - {"seterr"}, ascr=((), ("nosys",)), cbacts={"free", "setfn2"}, cbpos=2)),
         # long random histories with everything at once
-        dict(name="C44_rand", n=4, simulate=100 if q else 3000, depth=40,
+        dict(name="C44_rand", n=4, simulate=40 if q else 6000, depth=40,
              consts=consts(4, 16 if q else 22, list(range(0, 8)) + [10, 19, 35, 39, 63], ascr=full_as, cbpos=3,
-                           erracts=("none", "disable", "free"))),
+                           erracts=("none", "disable", "free", "disfree"))),
     ] + ([] if q else [
         # one step deeper for the two most common creation variants, and two-accept fault scripts
         dict(name="C44_exh_core7", n=3, consts=consts(3, 7, [2, 3], acts=ACTS - {"seterr"})),
@@ -180,6 +188,7 @@ def run(tier, seed):
     chk.cov["op_histogram"] = hg
     need = ["connect", "loop", "enable", "disable", "setcb", "seterr", "free", "delivered", "errcb", "closed_seen",
             "incb:free", "incb:disable", "incb:setnull", "incb:setfn2", "inerrcb:free", "inerrcb:disable",
+            "incb:disfree", "incb:nullfree", "incb:enfree", "incb:disenfree", "inerrcb:disfree",
             "accept:zlen", "accept:nosys"] + ["accept:" + f for f in FAILS]
     missing = [o for o in need if hg.get(o, 0) == 0]
     if missing:
